@@ -143,6 +143,14 @@ impl SubscriptionActor {
                 _ = deleted => (),
                 _ = poll => (),
             }
+
+            // A requester may have reserved its slot in the mailbox without having
+            // filled it yet. Merely dropping the receiver would leave such a request in
+            // a mailbox that nobody reads, and its requester waiting for a reply forever.
+            // Closing the mailbox and draining it waits for those in-flight requests and
+            // drops them, which tells their requesters that the subscription is gone.
+            receiver.close();
+            while receiver.recv().await.is_some() {}
         });
 
         sender
